@@ -29,6 +29,9 @@ pub struct Pay {
     /// index of a quote whose claimed payee id does not decode to a peer id (and that nobody signed)
     #[serde(default)]
     pub bogus_payee: Option<u8>,
+    /// the payment contract answers only after 15 simulated seconds (a slow RPC endpoint)
+    #[serde(default)]
+    pub slow: bool,
 }
 
 #[derive(Serialize, Deserialize, Clone, Debug, PartialEq)]
@@ -78,6 +81,9 @@ pub struct Plan {
     /// is register 0's meta ++ owner key)
     #[serde(default)]
     pub collide: bool,
+    /// swarm knob: the registers of this run are open to any writer (Permissions::AnyoneCanWrite)
+    #[serde(default)]
+    pub open_registers: bool,
     pub steps: Vec<Step>,
 }
 
@@ -95,6 +101,7 @@ fn good_pay(rng: &mut Rng) -> Pay {
         rpc_error: false,
         other_addr: false,
         bogus_payee: None,
+        slow: rng.chance(1, 6),
     }
 }
 
@@ -152,7 +159,8 @@ fn gen_delivery(rng: &mut Rng, prop: &str, mutable_only: bool, unpaid_bias: bool
             2 => match rng.below(12) { 0 => 0, 1 => 3, 2 | 3 => 2, _ => 1 },
             // register ops: 0 owner, 1 listed writer, 2 stranger, 3 / 4 = op NAMING the owner / the listed writer
             // as its source but signed by the stranger's key
-            _ => if rng.chance(1, 5) { 2 + rng.below(3) as u8 } else { rng.below(2) as u8 },
+            // 5 = validly signed op of the owner written for ANOTHER register (foreign address)
+            _ => if rng.chance(1, 5) { 2 + rng.below(4) as u8 } else { rng.below(2) as u8 },
         };
         items.push((id, flag));
     }
@@ -334,6 +342,7 @@ impl Sim for NodeSim {
             // swarm knob: a sparse routing table (fewer than K peers known) up to more than K
             cache: *rng.pick(&[0usize, 0, 1, 2]),
             collide,
+            open_registers: rng.chance(1, 5),
             n_peers: match rng.below(4) { 0 => rng.urange(7, 18), 1 => rng.urange(19, 40), _ => 24 },
             steps,
         }
